@@ -40,7 +40,7 @@ PROPS = {
                 "definition yields at least one match; distinct by hash of the whole case.",
         "assumptions": COMMON_ASSUMPTIONS,
         "stages": {"quick": NATIVE, "thorough": NATIVE},
-        "floors": {"quick": {"iterator_method_cases": 500_000, "dense_dictionary_searches": 12, "long_haystacks": 5000, "long_haystacks_64k": 300, "evaluations": 4_000_000, "distinct_nontrivial": 800_000,
+        "floors": {"quick": {"accessor_cross_checks": 20_000_000, "iterator_method_cases": 500_000, "dense_dictionary_searches": 12, "long_haystacks": 5000, "long_haystacks_64k": 300, "evaluations": 4_000_000, "distinct_nontrivial": 800_000,
                              "iter_with_2plus_matches": 300_000, "empty_match_first": 100_000},
                    "thorough": {"evaluations": 100_000_000, "distinct_nontrivial": 1_000_000}},
         "timeout": T_DEFAULT,
